@@ -25,7 +25,9 @@ def jRats (j : Json) : Option (List Rat) := match j with | .arr a => a.toList.ma
 def jCurve (j : Json) : Option Curve :=
   match j with
   | .str s => if s.startsWith "n:" then some (.name (s.drop 2).toString)
-              else if s.startsWith "c:" then (parseRat (s.drop 2).toString).map Curve.num else none
+              else if s.startsWith "c:" then (parseRat (s.drop 2).toString).map Curve.num
+              else if s.startsWith "ci:" then (parseRat (s.drop 3).toString).map Curve.num   -- a Python int
+              else none
   | _ => none
 def jCurves (j : Json) : Option (List Curve) :=
   match j with
